@@ -73,8 +73,14 @@ def handle (ts : List String) : String :=
         let sk := kvInts kv "sk"
         let dot := (List.zipWith (· * ·) a sk).foldl (· + ·) bb
         let idx := dot % ((2 * n * ext : Nat) : Int)
+        let block := kvNat kv "block"
+        let b := kvNat kv "b"
+        -- what the accumulator loop of the code computes (plaintext level) …
+        let got := if ext > 1 then blindExt n ext b size block t.data (bb :: a) sk
+                   else blindPlain b (if block = 0 then 1 else block) (t.data.getD 0 []) (bb :: a) sk
+        -- … and the clear rotation of the table at the decrypted index
         match (lutRotate n idx t.data) with
-        | p0 :: _ => s!"ok idx={idx} data={showPoly size p0}"
+        | p0 :: _ => s!"ok idx={idx} data={showPoly size got} clear={showPoly size p0}"
         | [] => "empty"
       | .ok [] => "empty"
       | .panic c => s!"panic:{c}"
